@@ -22,7 +22,7 @@ from ..core import Result, HarnessBug
 
 ID = "C20"
 LEVEL = "exploration"
-BUDGET = {"quick": 1500, "thorough": 100000}
+BUDGET = {"quick": 1500, "thorough": 300000}
 WORKERS = {"quick": 4, "thorough": 16}
 BUFSIZ = 8192          # glibc BUFSIZ (reported by the executor and cross-checked)
 BLK = 4096             # st_blksize = the buffer size glibc really uses for regular files
